@@ -1,10 +1,10 @@
 package vrt
 
 import (
-	"os"
 	"errors"
 	"io"
 	"net"
+	"os"
 	"strings"
 	"syscall"
 	"time"
@@ -124,16 +124,16 @@ type Conn struct {
 	name       string
 	peer       *Conn
 	rbuf       []byte
-	rvc        vclock // write -> read
-	closeVC    vclock // peer close -> EOF/err
-	closed     bool   // closed locally
-	peerClosed bool   // peer sent FIN
-	peerShut   bool   // the peer shut down its sending side (CloseWrite): reads end with EOF, the connection is still open
-	shut       bool   // this end shut down its sending side
-	reset      bool   // peer reset the connection
+	rvc        vclock    // write -> read
+	closeVC    vclock    // peer close -> EOF/err
+	closed     bool      // closed locally
+	peerClosed bool      // peer sent FIN
+	peerShut   bool      // the peer shut down its sending side (CloseWrite): reads end with EOF, the connection is still open
+	shut       bool      // this end shut down its sending side
+	reset      bool      // peer reset the connection
 	rdl, wdl   time.Time // deadlines, judged against the execution's logical clock (zero: none)
-	Capacity   int    // >0: the peer's Write parks when this end holds that many unread bytes
-	CloseErr   error  // non-nil: Close on this end closes the connection but reports this error (a TLS close notification that could not be sent)
+	Capacity   int       // >0: the peer's Write parks when this end holds that many unread bytes
+	CloseErr   error     // non-nil: Close on this end closes the connection but reports this error (a TLS close notification that could not be sent)
 	ReadCalls  int
 	WriteCalls int
 	CloseCalls int
@@ -372,8 +372,9 @@ func (c *Conn) Reset() {
 	e.log("reset " + c.name)
 }
 
-func (c *Conn) LocalAddr() net.Addr                { return memAddr{c.name} }
-func (c *Conn) RemoteAddr() net.Addr               { return memAddr{c.peer.name} }
+func (c *Conn) LocalAddr() net.Addr  { return memAddr{c.name} }
+func (c *Conn) RemoteAddr() net.Addr { return memAddr{c.peer.name} }
+
 // Deadlines are kept and judged against the logical clock (vrt.Now / vrt.Advance): an
 // operation started at or after its deadline fails with a timeout error, as on a net.Conn.
 func (c *Conn) SetDeadline(t time.Time) error      { c.rdl, c.wdl = t, t; return nil }
